@@ -18,7 +18,8 @@ RULE = ("domain A: grammars built to be LL(1) as written (alternatives start wit
         "there is no left recursion); domain B: general grammars of the C01 generator for which the parser itself reports "
         "is_ambiguous() == False. Inputs: EVERY token string up to length 5 over the grammar's (<=3) terminals (up to 364 "
         "strings, exhaustive per grammar; length 4 for 4 terminals) plus sampled sentences of <=10 tokens and their one-token "
-        "mutations; both smart_factorization settings. Non-trivial = grammar has a nullable non-terminal followed by "
+        "mutations; both smart_factorization settings; productions declared top-down / bottom-up / shuffled; is_ambiguous() is "
+        "re-read after all texts were parsed. Non-trivial = grammar has a nullable non-terminal followed by "
         "something and the tested set contains both members and non-members; distinct by (grammar, names).")
 ASSUMPTIONS = [
     "domain F (part of A): hand-shaped LL(1) patterns where exact FOLLOW sets matter (nullable symbol followed by a nullable symbol that has another follower elsewhere), with generated terminals, orders and wrappers",
@@ -72,7 +73,7 @@ def evaluate(case):
     memo = {}
     for smart in (True, False):
         try:
-            parser = build_parser(L, conc, tokcfg, smart)
+            parser = build_parser(L, conc, tokcfg, smart, True, case.get("decl"))
         except L.GrammarIsRecursive:
             classes.add("constructor_rejects_recursive")
             if not cyc:
@@ -124,6 +125,12 @@ def evaluate(case):
                 nonmembers += 1
             if len(f) > 3:
                 break
+        try:
+            if parser.is_ambiguous() != amb:
+                f.append(("is_ambiguous_changes_after_parsing", f"smart_factorization={smart} grammar={conc['prods']!r}: "
+                          f"{amb} before parsing, {parser.is_ambiguous()} after {len(inputs)} texts"))
+        except Exception as e:   # noqa
+            f.append(("is_ambiguous_raises_" + type(e).__name__, str(e)))
         if len(f) > 3:
             break
     for (smart, tn), d in decisions.items():
@@ -230,12 +237,32 @@ def st_follow_pattern(draw):
 
 
 @st.composite
+def st_follow_chain(draw):
+    """LL(1) grammars whose FOLLOW sets need several propagation steps: N0 -> N1 x ; N1 -> t1 N2 ; ... ; Nk -> tk | empty"""
+    ts = draw(st.permutations([k for k in gk.TERMINAL_KINDS if not k.startswith("KW_")]))[:5]
+    depth = draw(st.integers(2, 4))
+    nts = ["N%d" % i for i in range(depth + 1)]
+    x = ts[0]
+    prods = {"N0": [["N1", x]] + ([[ts[4]]] if draw(st.booleans()) else [])}
+    for i in range(1, depth):
+        alts = [[ts[1 + i % 3], nts[i + 1]]]
+        if draw(st.booleans()):
+            alts.append([ts[4], ts[4]])
+        prods[nts[i]] = alts
+    last = [[ts[1]], []] if draw(st.booleans()) else [[], [ts[1]]]
+    prods[nts[depth]] = last
+    return {"prods": prods, "start": "N0", "terms": list(ts)}
+
+
+@st.composite
 def st_case(draw):
-    dom = draw(st.sampled_from(["A", "A", "A", "B", "B", "F"]))
+    dom = draw(st.sampled_from(["A", "A", "A", "B", "B", "F", "G"]))
     if dom == "A":
         g = draw(st_ll1_grammar())
     elif dom == "F":
         g = draw(st_follow_pattern())
+    elif dom == "G":
+        g = draw(st_follow_chain())
     else:
         g = draw(gk.st_grammar(max_nt=4, max_alts=draw(st.sampled_from([3, 3, 5, 6])), max_len=3,
                                n_terms=draw(st.integers(2, 3))))
@@ -249,7 +276,9 @@ def st_case(draw):
     inputs = draw(st_inputs(G, g, draw(st.integers(3, 8)), max_tokens=10, multiline=False))
     return {"g": g, "dom": dom, "pool": draw(st.integers(0, 3)), "perm": draw(st.permutations(list(range(6)))),
             "syn": draw(st.booleans()), "kw": False, "inputs": inputs,
-            "exhaustive": 5 if len(g["terms"]) <= 3 else 4}
+            "exhaustive": 5 if len(g["terms"]) <= 3 else 4 if len(g["terms"]) == 4 else 3,
+            "decl": draw(st.sampled_from([None, "bottomup", "bottomup", "shuffle"]).flatmap(
+                lambda d: st.lists(st.integers(0, 9), min_size=6, max_size=6) if d == "shuffle" else st.just(d)))}
 
 
 def parts(tier):
